@@ -14,6 +14,7 @@ import tempfile
 
 pid, letter = sys.argv[1], sys.argv[2]
 src = sys.argv[3] if len(sys.argv) > 3 else '/tmp/wt/%s/_out' % pid
+store_as = sys.argv[4] if len(sys.argv) > 4 else letter
 diff = os.path.join(src, 'mutant_%s.diff' % letter)
 demo = os.path.join(src, 'demo_%s.py' % letter)
 wt = tempfile.mkdtemp(prefix='seedchk.', dir='/tmp')
@@ -44,7 +45,7 @@ try:
 finally:
     subprocess.run(['git', '-C', '/repo', 'worktree', 'remove', '--force', wt])
 if ok:
-    out = '/verif/seeded/%s%s' % (pid, letter)
+    out = '/verif/seeded/%s%s' % (pid, store_as)
     os.makedirs(out, exist_ok=True)
     shutil.copy(diff, os.path.join(out, 'patch.diff'))
     shutil.copy(demo, os.path.join(out, 'demo.py'))
@@ -52,7 +53,7 @@ if ok:
     np_ = os.path.join(src, 'notes.md')
     if os.path.exists(np_):
         notes = open(np_).read()
-    meta = {'breaks_property': pid, 'mutant': letter, 'origin': 'fresh sub-agent given only the property text and a scratch worktree',
+    meta = {'breaks_property': pid, 'mutant': store_as, 'origin': 'fresh sub-agent given only the property text and a scratch worktree',
             'needs_to_manifest': '(see notes)', 'notes': notes[:6000],
             'base_commit': subprocess.run(['git', '-C', '/repo', 'rev-parse', 'HEAD'], capture_output=True, text=True).stdout.strip(),
             'confirmation': ran}
